@@ -737,7 +737,15 @@ class Engine:
     def e_Dict(self, node, st):
         if not node.keys:
             return [(OK, st, ListVal([]))]  # empty literal: typed on assignment
-        raise Unsupported("dict literal")
+        if any(k is None for k in node.keys):
+            raise Unsupported("dict literal with ** unpacking")
+        # a non-empty literal is evaluated for the effects of its parts and kept as an opaque value
+        # (it can only be handed to calls that have an assumed contract, e.g. template rendering)
+        def k(s, vals):
+            v = mk_fresh(OpaqueT("dict"), "dictlit")
+            v.template = None
+            return [(OK, s, v)]
+        return bind(self.eval_many([v for v in node.values], st), k)
 
     def e_ListComp(self, node, st):
         """[f(x) for x in seq]  (no filter): a sequence of the same length, element-wise image."""
